@@ -87,9 +87,9 @@ Proof.
     + apply filter_In. split; [exact Hdin|]. unfold key_eqb. subst k. destruct (dsrc d) as [kk ll].
       cbn in *. destruct kk; try discriminate. cbn. apply str_eqb_refl.
   - intros f Hf. rewrite (Mk_outputs s s' (sl r') M) in Hf. specialize (Ho f Hf).
-    unfold output_ok in *. rewrite Hdet. destruct (is_detached (KFile, f) s); [reflexivity|].
+    unfold output_ok in *. rewrite Hdet. destruct (is_detached (KFile, f) s) eqn:Edf; [reflexivity|].
     cbn [orb] in *. destruct (Ff f) as [E|[B O]]; [rewrite E; exact Ho|].
-    exfalso. apply Hns. destruct (C f B O) as [_ Hp]. apply Hp. exact Hf.
+    exfalso. apply Hns. destruct (C f B O) as [_ Hp]. apply (Hp Edf). exact Hf.
 Qed.
 
 (* ------------------------------------------------------------------------------------------ *)
@@ -313,8 +313,7 @@ Proof.
   destruct S1 as ((N1 & D1 & H1) & St1 & _).
   assert (Hu1 : unique_labels s1) by (unfold unique_labels; rewrite St1; exact Hu).
   assert (Hsp1 : single_producer s1).
-  { intros f l1 l2 A B. unfold file_sinks_of_step, sinks_of in A, B. rewrite D1 in A, B.
-    exact (Hsp f l1 l2 A B). }
+  { apply (single_producer_same_graph s s1); [repeat split; assumption|exact Hsp]. }
   destruct (foldM (fun s0 l => handle_updated_file l s0) (with_act AUpdated) s1) as [s2| |] eqn:E2; try discriminate.
   destruct (foldM (fun s0 l => handle_deleted_file l s0) (with_act ADeleted) s2) as [s3| |] eqn:E3; try discriminate.
   (* phase 2 *)
